@@ -225,7 +225,7 @@ func runChild(run *vh.Run, j job, start int) (next int, finished bool) {
 		return j.Count, true
 	}
 	cmd := exec.Command(os.Args[0], run.Tier)
-	cmd.Env = append(os.Environ(), ChildEnv+"="+spec, "GOTRACEBACK=all", "VERIF_SCRATCH="+scratch())
+	cmd.Env = append(os.Environ(), ChildEnv+"="+spec, "GOTRACEBACK=crash", "VERIF_SCRATCH="+scratch())
 	cmd.Stdout, cmd.Stderr = f, f
 	if err := cmd.Start(); err != nil {
 		f.Close()
